@@ -1,0 +1,1 @@
+//! Verification facade (cfg-gated): syncer family.  See `crate::verif`.
